@@ -791,7 +791,9 @@ func (p *Path) appendVals(fr *frame, old []Value, elems []Value) []Value {
 		newCap = 2*need + 8
 	}
 	r := make([]Value, need, newCap)
-	copy(r, old)
+	for i, v := range old {
+		r[i] = copyVal(v) // growth copies the elements: the old backing array stays independent
+	}
 	copy(r[len(old):], elems)
 	return r
 }
